@@ -20,6 +20,28 @@ CLAIMED = {
         "Trusted: TLC, the hand transcription H3Validity.tla (bound by replay), ndjson 4-word encoding, the driver "
         "copying results. The closure clause is checked on the calls the drivers make (all suites log produced cells).",
         "DESIGN.md 3.2, 5/C01"),
+    "C04": (
+        "TLC: iterators.c state machine refines declarative children (exhaustive to depth 4/6) + TLC trace validation of hierarchy API events",
+        "Reference semantics (H3Hierarchy.tla: children = valid digit extensions in index order, closed-form counts in "
+        "BigNat) are checked against declarative sets by TLC; the child iterator of iterators.c is modelled as a state "
+        "machine (H3ChildIter.tla) and TLC shows, for hexagon, pentagon and off-chain parents up to depth 4 (quick) / 6 "
+        "(thorough), that it emits exactly the children in strictly increasing order, first the centre child, count = "
+        "closed form, and terminates. Every recorded cellToParent / cellToChildrenSize / cellToCenterChild / "
+        "cellToChildren call (pentagon disks, seams, random cells at all 16 resolutions, out-of-range resolutions, "
+        "partition membership) is validated by TLC against the reference (Trace_Hier.tla).",
+        "Trusted: TLC, ndjson encodings, driver. Centre-coincidence is a numeric observation (angle <= tolerance computed "
+        "in double by the driver). Child lists deeper than 5 levels are validated on count + sampled positions.",
+        "DESIGN.md 3.3, 5/C04"),
+    "C13": (
+        "TLC: Rank/Unrank digit-DP checked against iterator positions and declarative sets + TLC trace validation of childPos events",
+        "Rank/Unrank are defined by a digit-DP independent of the code's loops; TLC checks they are a monotone "
+        "bijection onto 0..count-1 on declarative children sets and that the position of every cell emitted by the "
+        "iterator machine equals its Rank (depth <= 4/6). Recorded cellToChildPos / childPosToCell calls (all ancestor "
+        "resolutions, depths 0..15, first/last/power-of-7/pentagon-width boundary/random/out-of-range positions incl. "
+        "INT64 extremes, every leave-level under pentagons, bad resolutions) and complete cellToChildren lists are "
+        "validated by TLC (BigNat arithmetic in TLA+).",
+        "Trusted: TLC, ndjson encodings (base-16807 limbs), driver.",
+        "DESIGN.md 3.3, 5/C13"),
 }
 
 PENDING_REASON = "check not built yet in this round (work in progress; see DESIGN.md section 10 for the order of work)"
